@@ -16,6 +16,9 @@ theorem sem_trap_nil {n : Nat} (hn : 1 ≤ n) (k : Ctx) (e : Env) :
   | zero => omega
   | succ m => simp [sem, Prog.isNil]
 
+theorem errAction_nil (e0 : Env) {e1 : Env} (h : e1.trapErr = .nil) : errAction e0 e1 = .nil := by
+  unfold errAction; split <;> simp [h]
+
 theorem absEnv_exit (s : St) (x : Exit) : absEnv { s with exit := x } = absEnv s := rfl
 
 /-- `BashSem` does not look at the context for simple commands without control effect. -/
@@ -108,24 +111,24 @@ theorem run_stmt_nonneg (n : Nat) (c : Cmd) (s : St) (hs : stop s = false) :
   rfl
 
 /-- What `BashSem` does after the command of a statement without `!`. -/
-def swrap (n : Nat) (k : Ctx) (c : Cmd) : Flow × Env → Res
+def swrap (n : Nat) (k : Ctx) (c : Cmd) (e0 : Env) : Flow × Env → Res
   | (.norm, e1) =>
     if isChecked c && e1.status != 0 && !k.ign then
-      match sem n k (.trap e1.trapErr) e1 with
+      match sem n k (.trap (errAction e0 e1)) e1 with
       | none => none
       | some (.exit, e2) => some (.exit, e2)
       | some (_, e2) => if e2.errexit then some (.exit, e2) else some (.norm, e2)
     else some (.norm, e1)
   | (.brk m, e1) =>
     if isBrkCont c && e1.status != 0 && !k.ign then
-      match sem n k (.trap e1.trapErr) e1 with
+      match sem n k (.trap (errAction e0 e1)) e1 with
       | none => none
       | some (.exit, e2) => some (.exit, e2)
       | some (_, e2) => if e2.errexit then some (.exit, e2) else some (.brk m, e2)
     else some (.brk m, e1)
   | (.cont m, e1) =>
     if isBrkCont c && e1.status != 0 && !k.ign then
-      match sem n k (.trap e1.trapErr) e1 with
+      match sem n k (.trap (errAction e0 e1)) e1 with
       | none => none
       | some (.exit, e2) => some (.exit, e2)
       | some (_, e2) => if e2.errexit then some (.exit, e2) else some (.cont m, e2)
@@ -136,7 +139,7 @@ theorem sem_stmt_nonneg (n : Nat) (k : Ctx) (c : Cmd) (e : Env) :
     sem (n+1) k (.stmt (.mk false c)) e =
       match sem n k (.cmd c) e with
       | none => none
-      | some r => swrap n k c r := by
+      | some r => swrap n k c e r := by
   rw [sem]
   simp only [Bool.false_eq_true, ↓reduceIte]
   cases sem n k (.cmd c) e with
@@ -175,9 +178,9 @@ theorem mwrap_fire {n : Nat} {c : Cmd} {s1 : St} (hao : c.isAndOr = false)
       else some { s1 with lastExit := s1.exit } := by
   simp [mwrap, hao, hok, hne, hrt]
 
-theorem swrap_skip {n : Nat} {k : Ctx} {c : Cmd} {e1 : Env}
+theorem swrap_skip {n : Nat} {k : Ctx} {c : Cmd} {e0 e1 : Env}
     (h : isChecked c = false ∨ e1.status = 0 ∨ k.ign = true) :
-    swrap n k c (.norm, e1) = some (.norm, e1) := by
+    swrap n k c e0 (.norm, e1) = some (.norm, e1) := by
   simp only [swrap]
   split
   · rename_i hc
@@ -188,15 +191,15 @@ theorem swrap_skip {n : Nat} {k : Ctx} {c : Cmd} {e1 : Env}
     · rw [h] at hc; cases hc.2
   · rfl
 
-theorem swrap_fire {n : Nat} {k : Ctx} {c : Cmd} {e1 : Env} (hic : isChecked c = true)
+theorem swrap_fire {n : Nat} {k : Ctx} {c : Cmd} {e0 e1 : Env} (hic : isChecked c = true)
     (hst : e1.status ≠ 0) (hi : k.ign = false)
-    (htr : sem n k (.trap e1.trapErr) e1 = some (.norm, e1)) :
-    swrap n k c (.norm, e1) = if e1.errexit then some (.exit, e1) else some (.norm, e1) := by
+    (htr : sem n k (.trap (errAction e0 e1)) e1 = some (.norm, e1)) :
+    swrap n k c e0 (.norm, e1) = if e1.errexit then some (.exit, e1) else some (.norm, e1) := by
   simp [swrap, hic, hst, hi, htr]
 
-theorem swrap_other {n : Nat} {k : Ctx} {c : Cmd} {fl : Flow} {e1 : Env} (h : fl ≠ .norm)
+theorem swrap_other {n : Nat} {k : Ctx} {c : Cmd} {fl : Flow} {e0 e1 : Env} (h : fl ≠ .norm)
     (h0 : (∀ m, fl ≠ .brk m) ∧ (∀ m, fl ≠ .cont m) ∨ e1.status = 0) :
-    swrap n k c (fl, e1) = some (fl, e1) := by
+    swrap n k c e0 (fl, e1) = some (fl, e1) := by
   cases fl with
   | norm => exact absurd rfl h
   | ret => rfl
@@ -214,9 +217,9 @@ theorem Frame.trans {a b c : St} (h1 : Frame a b) (h2 : Frame b c) : Frame a c :
   ⟨h2.ne.trans h1.ne, h2.il.trans h1.il, h2.inf.trans h1.inf⟩
 
 theorem wrap_nonneg {n : Nat} {K : SCtx} {k : Ctx} {sub : Bool} {c : Cmd} {s s0 s1 : St}
-    {fl : Flow} {e1 : Env} (hn : 1 ≤ n) (hf0 : Frame s s0)
+    {fl : Flow} {e0 e1 : Env} (hn : 1 ≤ n) (hf0 : Frame s s0)
     (h : Post K k sub False (isChecked c = false ∧ tailOkC c = true) s0 s1 fl e1) :
-    Rel (Post K k sub True (tailOkC c = true) s) (mwrap n c s1) (swrap n k c (fl, e1)) := by
+    Rel (Post K k sub True (tailOkC c = true) s) (mwrap n c s1) (swrap n k c e0 (fl, e1)) := by
   cases fl with
   | norm =>
     obtain ⟨he, hd, hfr, hnf, hnp, _, hq⟩ := h
@@ -230,8 +233,8 @@ theorem wrap_nonneg {n : Nat} {K : SCtx} {k : Ctx} {sub : Bool} {c : Cmd} {s s0 
         ⟨hfr'.ne, hfr'.il, hfr'.inf⟩, hnf, hnp, fun _ => rfl, hq'⟩
     have hrt : run n (.trap s1.callbackErr) s1 = some s1 := by
       rw [hd.cerr]; exact run_trap_nil hn s1
-    have hst : sem n k (.trap (absEnvC s1).trapErr) (absEnvC s1) = some (.norm, absEnvC s1) :=
-      sem_trap_nil hn k _
+    have hst : sem n k (.trap (errAction e0 (absEnvC s1))) (absEnvC s1) = some (.norm, absEnvC s1) := by
+      rw [errAction_nil e0 rfl]; exact sem_trap_nil hn k _
     by_cases hao : c.isAndOr = true
     · have hic := isChecked_of_andOr hao
       rw [mwrap_andor hao, swrap_skip (Or.inl hic)]
@@ -267,7 +270,7 @@ theorem wrap_nonneg {n : Nat} {K : SCtx} {k : Ctx} {sub : Bool} {c : Cmd} {s s0 
               by_cases hne : s1.noErrExit = true
               · exact mwrap_skip (Or.inr hne)
               · rw [mwrap_fire hao' hok (by simpa using hne) hrt, if_neg (by simp [he'])]
-            have hsp : swrap n k c (.norm, absEnvC s1) = some (.norm, absEnvC s1) := by
+            have hsp : swrap n k c e0 (.norm, absEnvC s1) = some (.norm, absEnvC s1) := by
               by_cases hi : k.ign = true
               · exact swrap_skip (Or.inr (Or.inr hi))
               · rw [swrap_fire hic hfail (by simpa using hi) hst, if_neg (by simp [hee])]
@@ -351,9 +354,9 @@ theorem wrap_nonneg {n : Nat} {K : SCtx} {k : Ctx} {sub : Bool} {c : Cmd} {s s0 
             rw [if_neg (by simp [he'])]; exact hplain
 
 theorem wrap_pending {n : Nat} {K : SCtx} {k : Ctx} {sub : Bool} {c : Cmd} {s s0 s1 : St}
-    {fl : Flow} {e1 : Env} {q : Prop} (hn : 1 ≤ n)
+    {fl : Flow} {e0 e1 : Env} {q : Prop} (hn : 1 ≤ n)
     (h : Pending K k sub c s0 s1 fl e1) :
-    Rel (Post K k sub True q s) (mwrap n c s1) (swrap n k c (fl, e1)) := by
+    Rel (Post K k sub True q s) (mwrap n c s1) (swrap n k c e0 (fl, e1)) := by
   obtain ⟨hfl, hsoft, he, hd, _, hnp, hr, hx, hee, hne, hc0⟩ := h
   subst hfl; subst he
   have hic : isChecked c = true := by cases c <;> simp [softCmd] at hsoft <;> rfl
@@ -365,8 +368,8 @@ theorem wrap_pending {n : Nat} {K : SCtx} {k : Ctx} {sub : Bool} {c : Cmd} {s s0
   have hi : k.ign = false := by rw [← hd.eign hKe]; exact hne
   have hrt : run n (.trap s1.callbackErr) s1 = some s1 := by
     rw [hd.cerr]; exact run_trap_nil hn s1
-  have hst : sem n k (.trap (absEnvC s1).trapErr) (absEnvC s1) = some (.norm, absEnvC s1) :=
-    sem_trap_nil hn k _
+  have hst : sem n k (.trap (errAction e0 (absEnvC s1))) (absEnvC s1) = some (.norm, absEnvC s1) := by
+    rw [errAction_nil e0 rfl]; exact sem_trap_nil hn k _
   have hok : s1.exit.ok = false := by simp [Exit.ok, hc0]
   have hee' : (absEnvC s1).errexit = true := hee
   rw [mwrap_fire hao hok hne hrt, swrap_fire hic hc0 hi hst, if_pos hee, if_pos hee']
